@@ -94,7 +94,7 @@ theorem mem_castleCands (Q : Pos) (m : Mv) (c : UInt8) (h1 : c.toNat < 16) (h2 :
 theorem pseudo_pre (p : Pos) (m : Mv) (h : pseudo p m = true) :
     own p.wtm (p.at m.f) = true ∧ own p.wtm (p.at m.t) = false ∧ m.f ≠ m.t := by
   by_cases k6 : kind (p.at m.f) = 6
-  · rw [pseudo_pawn p m k6, Bool.and_eq_true] at h; exact preRule_facts p m h.1
+  · rw [pseudo_pawn_um p m k6, Bool.and_eq_true] at h; exact preRule_facts p m h.1
   · by_cases k1 : kind (p.at m.f) = 1
     · rw [pseudo_king p m k1, Bool.and_eq_true] at h; exact preRule_facts p m h.1
     · rw [pseudo_other p m k6 k1, Bool.and_eq_true] at h; exact preRule_facts p m h.1
@@ -149,7 +149,7 @@ theorem mem_epCands_all (P Q : Pos) (m : Mv) (hp : pseudo P m = true) (hs : epSh
       rw [apply_b] at hb
       rw [hb] at a1 a2 a3
       unfold gt at a1 a2 a3
-      unfold epPlausible
+      unfold epTracePlausible
       simp only [Bool.or_eq_true, Bool.and_eq_true, beq_iff_eq]
       rw [hw]
       cases hpw : P.wtm
@@ -225,7 +225,7 @@ theorem epCapLegal_iff (p : Pos) (e : Sq) (hs : epShape p = true) (he : p.ep = s
     have hleg := (mem_genLegal p m).mp hm
     have hp := legalB_pseudo p m hleg
     have hp' := hp
-    rw [pseudo_pawn p m k6, Bool.and_eq_true] at hp'
+    rw [pseudo_pawn_um p m k6, Bool.and_eq_true] at hp'
     obtain ⟨hown, _, _⟩ := preRule_facts p m hp'.1
     have he' : p.ep = some m.t := by rw [hte]; exact he
     obtain ⟨hpr, _⟩ := pawn_ep_facts p m hown hp'.2 hs he'
@@ -354,7 +354,7 @@ theorem pseudo_noEp (P : Pos) (m : Mv) (h : ¬ (kind (P.at m.f) = 6 ∧ P.ep = s
   by_cases k6 : kind (P.at m.f) = 6
   · have k6' : kind ((noEp P).at m.f) = 6 := k6
     have he : ¬ P.ep = some m.t := fun e => h ⟨k6, e⟩
-    rw [pseudo_pawn P m k6, pseudo_pawn (noEp P) m k6']
+    rw [pseudo_pawn_um P m k6, pseudo_pawn_um (noEp P) m k6']
     have : pawnRule (noEp P) m = pawnRule P m := by
       have he' : (P.ep == some m.t) = false := by simpa using he
       unfold pawnRule noEp
@@ -391,7 +391,7 @@ theorem pred_noEp (Q : Pos) (x : UnMv) (h : Pred Q x) (hn : isEpUn Q x = false) 
   obtain ⟨hs, _, _⟩ := wfB_facts P hwf
   have hcond : ¬ (kind (P.at x.m.f) = 6 ∧ P.ep = some x.m.t) := by
     rintro ⟨k6, he⟩
-    rw [pseudo_pawn P x.m k6, Bool.and_eq_true] at hp
+    rw [pseudo_pawn_um P x.m k6, Bool.and_eq_true] at hp
     obtain ⟨hown, _, _⟩ := preRule_facts P x.m hp.1
     obtain ⟨hpr, _⟩ := pawn_ep_facts P x.m hown hp.2 hs he
     have hb : (apply P x.m).b = Q.b := by rw [← (fixupEP_fields _).1]; exact congrArg Core.b hq
@@ -473,7 +473,7 @@ theorem pred_ep_origin_empty (Q : Pos) (x : UnMv) (e : Sq) (h : Pred Q x) (he : 
     rw [this, he]
   obtain ⟨k6, hd, hev⟩ := apply_ep_some P x.m e (fixupEP_ep_some _ _ hep)
   have hp' := hp
-  rw [pseudo_pawn P x.m k6, Bool.and_eq_true] at hp'
+  rw [pseudo_pawn_um P x.m k6, Bool.and_eq_true] at hp'
   obtain ⟨hown, _, hne⟩ := preRule_facts P x.m hp'.1
   have hf := x.m.f.isLt
   have ht := x.m.t.isLt
